@@ -20,7 +20,9 @@ pub fn find_roots_reim(poly: Polynomial<f64>) -> (Vec<f64>, Vec<Complex<f64>>) {
         let theta = rng.gen_range(0.0..std::f64::consts::PI);
         let x = Complex::from_polar(r, theta);
         if let Some(x) = find_once(&poly, &der, x) {
-            if x.im.abs() <= EPS {
+            // Newton's iteration from a complex start reaches a real root only up to rounding
+            // error, so the imaginary part is of the order of the machine epsilon, not 0.
+            if x.im.abs() <= 1.0e-9 * x.norm().max(1.0) {
                 re.push(x.re);
             } else {
                 im.push(x);
